@@ -15,7 +15,7 @@ def m_propagate_phaseless_ad_1 : Prog := (Prog.seq (Prog.op (Op.other "modified_
 def m_propagate_phaseless_ad_nosr : Prog := (Prog.seq (Prog.op (Op.other "optimize")) (Prog.seq (Prog.op (Op.other "build_measurement_intermediates")) (Prog.seq (Prog.op (Op.other "build_propagation_intermediates")) (Prog.seq (Prog.op Op.refresh) (Prog.seq (Prog.op (Op.other "set:n_killed_walkers")) (Prog.seq (Prog.op (Op.other "set:pop_control_ene_shift")) (Prog.seq (Prog.scan "n_ene_blocks" m__block_scan) (Prog.op (Op.other "set:n_killed_walkers")))))))))
 def m_propagate_phaseless_ad_norot : Prog := (Prog.seq (Prog.op (Op.other "build_measurement_intermediates")) (Prog.seq (Prog.op (Op.other "build_propagation_intermediates")) m__ad_block))
 def m_propagate_phaseless_ad_nosr_norot : Prog := (Prog.seq (Prog.op (Op.other "build_measurement_intermediates")) (Prog.seq (Prog.op (Op.other "build_propagation_intermediates")) (Prog.seq (Prog.op Op.refresh) (Prog.seq (Prog.op (Op.other "set:n_killed_walkers")) (Prog.seq (Prog.op (Op.other "set:pop_control_ene_shift")) (Prog.seq (Prog.scan "n_ene_blocks" m__block_scan) (Prog.op (Op.other "set:n_killed_walkers"))))))))
-def m_propagate_phaseless : Prog := (Prog.seq (Prog.alt (Prog.op Op.refresh) Prog.skip) (Prog.seq (Prog.op (Op.other "set:n_killed_walkers")) (Prog.seq (Prog.op (Op.other "set:pop_control_ene_shift")) (Prog.seq (Prog.scan "n_sr_blocks" m__sr_block_scan) (Prog.op (Op.other "set:n_killed_walkers"))))))
+def m_propagate_phaseless : Prog := (Prog.seq (Prog.op Op.refresh) (Prog.seq (Prog.op (Op.other "set:n_killed_walkers")) (Prog.seq (Prog.op (Op.other "set:pop_control_ene_shift")) (Prog.seq (Prog.scan "n_sr_blocks" m__sr_block_scan) (Prog.op (Op.other "set:n_killed_walkers"))))))
 def m_propagate_free : Prog := (Prog.seq (Prog.op Op.refresh) (Prog.scan "n_blocks" m__block_scan_free))
 def m___hash__ : Prog := Prog.skip
 
@@ -37,6 +37,13 @@ theorem propagate_phaseless_ad_norot_noClobber : noClobber m_propagate_phaseless
 theorem propagate_phaseless_ad_nosr_norot_coherent : (check m_propagate_phaseless_ad_nosr_norot Coh.stale).isSome = true := by decide
 theorem propagate_phaseless_ad_nosr_norot_noClobber : noClobber m_propagate_phaseless_ad_nosr_norot = true := by decide
 theorem driver_coherent : (check driver Coh.stale).isSome = true := by decide
+
+/- C12: entry points that must agree differ only by operations that are the identity under the stated hypothesis -/
+def optTags : List String := ["optimize"]
+def setupTags : List String := ["optimize", "build_measurement_intermediates", "build_propagation_intermediates"]
+theorem ad_eq_ad_norot : eraseTags optTags m_propagate_phaseless_ad = eraseTags optTags m_propagate_phaseless_ad_norot := by decide
+theorem ad_nosr_eq_ad_nosr_norot : eraseTags optTags m_propagate_phaseless_ad_nosr = eraseTags optTags m_propagate_phaseless_ad_nosr_norot := by decide
+theorem ad_norot_eq_plain : eraseTags setupTags m_propagate_phaseless_ad_norot = eraseTags setupTags m_propagate_phaseless := by decide
 
 def entryPoints : List (String × Prog) := [("propagate_phaseless", m_propagate_phaseless), ("propagate_phaseless_ad", m_propagate_phaseless_ad), ("propagate_phaseless_ad_1", m_propagate_phaseless_ad_1), ("propagate_phaseless_ad_nosr", m_propagate_phaseless_ad_nosr), ("propagate_phaseless_ad_norot", m_propagate_phaseless_ad_norot), ("propagate_phaseless_ad_nosr_norot", m_propagate_phaseless_ad_nosr_norot), ("driver", driver)]
 
